@@ -1133,6 +1133,18 @@ func (c c11scfg) id() string {
 	return "s/" + c.flavour + "/" + strings.Join(ts, "||")
 }
 
+func (c c11scfg) hasCanceller() bool {
+	for _, t := range c.threads {
+		for _, o := range t {
+			if o.kind == "K" || o.kind == "KP" {
+				return true
+			}
+		}
+	}
+
+	return false
+}
+
 func (c c11scfg) kinds() string {
 	var ks []string
 
@@ -1159,15 +1171,7 @@ func c11sBuild(c c11scfg) vsched.Scenario {
 	e.opOf = map[int]string{}
 	results := make([][]string, len(c.threads))
 
-	for _, t := range c.threads {
-		for _, o := range t {
-			if o.kind == "K" || o.kind == "KP" {
-				e.cancelPoints = true
-			}
-		}
-	}
-
-	if e.cancelPoints {
+	if e.cancelPoints = c.hasCanceller(); e.cancelPoints {
 		e.saveCtx, e.saveCancel = vctx.WithCancel(context.Background())
 	}
 
@@ -1346,10 +1350,16 @@ func c11Scenarios(thorough bool) []c11scfg {
 	Sc := func(f string) c11op { return c11op{kind: "S", fact: f, match: true, ctx: true} }
 	K, KP := c11op{kind: "K"}, c11op{kind: "KP"}
 
-	var cancelSmall, cancelCont, cancel3 [][][]c11op
+	// cancelContRefused: the continuations the unchanged code refuses (same height next round, lower height); the
+	// next-height continuation runs a second complete Save (180-360 thousand executions with the real processor at bound 1)
+	var cancelSmall, cancelCont, cancelContRefused, cancel3 [][][]c11op
 
 	for _, k := range []c11op{K, KP} {
 		cancelSmall = append(cancelSmall, [][]c11op{T(P("F1a"), Sc("F1a")), T(k)})
+		cancelContRefused = append(cancelContRefused,
+			[][]c11op{T(P("F1a"), Sc("F1a"), P("F1b"), S("F1b")), T(k)},
+			[][]c11op{T(P("F2a"), Sc("F2a"), P("F1a"), S("F1a")), T(k)},
+		)
 		cancelCont = append(cancelCont,
 			[][]c11op{T(P("F1a"), Sc("F1a"), P("F1b"), S("F1b")), T(k)},
 			[][]c11op{T(P("F2a"), Sc("F2a"), P("F1a"), S("F1a")), T(k)},
@@ -1377,7 +1387,7 @@ func c11Scenarios(thorough bool) []c11scfg {
 		add("stub", large, 2)
 		add("stub", huge, 2)
 		add("real", cancelSmall, 2)
-		add("real", cancelCont, 1)
+		add("real", cancelContRefused, 1)
 		add("stub", cancelSmall, 3)
 		add("stub", cancelCont, 2)
 		add("stub", cancel3, 2)
@@ -1386,7 +1396,7 @@ func c11Scenarios(thorough bool) []c11scfg {
 		add("stub", small, 2)
 		add("stub", large, 1)
 		add("stub", huge[:2], 1)
-		add("real", cancelSmall, 1) // the real-flavour continuations (40-100 thousand executions each): thorough tier; quick: part Q and the stub flavour
+		add("real", cancelSmall, 1) // the real-flavour continuations (40-80 thousand executions each): thorough tier; quick: part Q and the stub flavour
 		add("stub", cancelSmall, 2)
 		add("stub", cancelCont, 2)
 		add("stub", cancel3, 1)
@@ -1409,10 +1419,30 @@ func c11PartS(r *vlib.Run) {
 
 	sh, nsh := r.Shard()
 
+	var nwhole int
+
 	for _, c := range cfgs {
 		c := c
 		id := c.id()
 		build := func() vsched.Scenario { return c11sBuild(c) }
+
+		// The scenarios without a canceller are split over the shards by first-level subtree (of which subtree 1 is by
+		// far the largest for every scenario, so shard 1 carries most of them); the scenarios with a canceller are
+		// explored whole by one shard each, dealt round robin to the shards other than 1.
+		whole, owner := c.hasCanceller(), 0
+
+		if whole {
+			switch {
+			case nsh > 2:
+				if owner = nwhole % (nsh - 1); owner >= 1 {
+					owner++
+				}
+			case nsh == 2:
+				owner = nwhole % 2
+			}
+
+			nwhole++
+		}
 
 		if rid, rp := r.Replaying(); rp {
 			k := strings.LastIndex(rid, "#")
@@ -1431,13 +1461,13 @@ func c11PartS(r *vlib.Run) {
 			continue
 		}
 
-		if r.Expired() {
+		if r.Expired() || (whole && owner != sh) {
 			continue
 		}
 
-		// every shard explores every scenario, each a disjoint set of first-level subtrees
+		// every shard explores every scenario, each a disjoint set of first-level subtrees (whole: one shard, everything)
 		res := vsched.Explore(vsched.Config{Name: id, Bound: c.bound, Build: build, Expired: r.Expired, MaxFound: 3, Horizon: 5000,
-			Mine: func(l int) bool { return nsh <= 1 || l%nsh == sh }, Secondary: sh != 0})
+			Mine: func(l int) bool { return whole || nsh <= 1 || l%nsh == sh }, Secondary: sh != 0 && !whole})
 		if res.EngineError != "" {
 			panic("engine error in " + id + ": " + res.EngineError)
 		}
@@ -1448,7 +1478,7 @@ func c11PartS(r *vlib.Run) {
 		r.Add("s_executions", res.Executions)
 		r.Add("s_executions "+id, res.Executions)
 
-		if sh == 0 {
+		if sh == 0 || whole {
 			r.Add("s_scenarios", 1)
 		}
 
@@ -1477,7 +1507,7 @@ func c11PartS(r *vlib.Run) {
 			r.Violation(id+"#"+vsched.ChoicesString(f.Choices), f.Fail.Sig, f.Fail.Detail+fmt.Sprintf(" (preemptions=%d)", f.Preempt), nil)
 		}
 
-		if sh == 0 {
+		if sh == 0 || whole {
 			r.Sample(map[string]any{"scenario": id, "executions_of_shard_0": res.Executions, "distinct_outcomes_of_shard_0": len(res.Outcomes)})
 		}
 	}
